@@ -12,6 +12,12 @@ def hook_commits():
         return []
 
 CHECKS = {
+ "C20": dict(
+    level="exploration",
+    technique="rapid-generated concurrent scripts (goroutine fan-out behind a barrier, drawn programmes, Gosched points, GOMAXPROCS 2/16, repeated rounds) executed in a probe built with the Go race detector; invariants over the collected history against the sequential DI model",
+    text="Samples schedules under -race: any race report, crash or deadlock is a violation, as is a shared service with two instances, a contextual instance seen in two contexts, a parameter function evaluated more often than sequentially, or a result that differs structurally from the sequential model.",
+    note="Schedule sampling, not enumeration (the harness does not own the Go scheduler); trusts the race detector and the fixture's synchronised recording layer.",
+    ref="DESIGN.md §4 C20"),
  "C14": dict(
     level="exploration",
     technique="rapid alias-heavy generator over confusable fixture paths with identical self-identifying symbols; oracle = whole-first-segment alias rule (reference model) on observed object package IDs and reflected getter signatures, plus go/parser checks of the import block",
